@@ -55,6 +55,15 @@ def discover(chk):
             direct = {n.func.attr for n in ast.walk(f.node) if isinstance(n, ast.Call) and isinstance(n.func, ast.Attribute) and util.dotted(n.func.value) == "self"}
             if rel.name in direct and not f.params() and any(isinstance(n, ast.For) for n in ast.walk(f.node)):
                 roles["reap"] = f
+        if "reap" not in roles:
+            # the parameterless own method looping over the active set that the other steps call
+            for f in meths:
+                if f is rel or f.params() or prog_pick_getter(f) is not None:
+                    continue
+                loops = [n for n in ast.walk(f.node) if isinstance(n, ast.For) and "self." + active in util.unparse(n.iter)]
+                callers = {g.name for g in meths if g is not f for c_ in ast.walk(g.node) if isinstance(c_, ast.Call) and util.dotted(c_.func) == "self." + f.name}
+                if loops and callers:
+                    roles["reap"] = f
         reap_ = roles.get("reap")
         for f in meths:
             if f in (rel, reap_) or not f.params():
@@ -286,6 +295,11 @@ def guards(chk, cls, active, released, roles):
                     if len([e for e in o.path.events if e[0] == "loop-iter"]) == 1 and len(spawned) != 1:
                         chk.bad(rule, fi.qual, "one grow iteration spawns %d children" % len(spawned), node=fi.node, stmt="spawn-count")
                         ok = False
+                    if len([e for e in o.path.events if e[0] == "loop-iter"]) == 1 and len(spawned) == 1:
+                        adds = [e for e in o.path.events if e[0] == "call" and e[1][1] == ("attr", ("attr", SELF, active), "add") and list(e[1][2]) == [spawned[0][1]]]
+                        if len(adds) != 1 and o.kind != "raise":
+                            chk.bad(rule, fi.qual, "the child spawned in a grow iteration is added to the active set %d times (required: once): it is not counted among the children, so the next adjustment spawns for the same demand again" % len(adds), node=fi.node, stmt="spawn-not-added")
+                            ok = False
                     augs = [e for e in o.path.events if e[0] == "aug" and e[1] == mvar]
                     if not augs or augs[0][2] != "-" or not (augs[0][3][0] == "attr" and augs[0][3][2] == "demand" and augs[0][3][1][0] == "call" and augs[0][3][1][1] == ("attr", SELF, "factory")):
                         chk.bad(rule, fi.qual, "after spawning, the missing demand is not reduced by the new child's demand (%s)" % [(e[2], show(e[3])) for e in augs], node=fi.node, stmt="missing-update")
@@ -413,6 +427,10 @@ def aggregation(chk, cls, active, released, roles):
         if esc:
             chk.bad(rule, g.qual, "%s raises %s when no child has supply (documented fallback: 1.0)" % (prop, show(esc[0].value)), node=g.node, stmt="%s-escape" % prop)
             continue
+        none_exit = [o for o in outs if o.kind == "normal" or (o.kind == "return" and o.value in (None, ("const", None)))]
+        if none_exit:
+            chk.bad(rule, g.qual, "%s can complete without returning a value (it reads back as None instead of the aggregate over the children)" % prop, node=g.node, stmt="%s-returns-none" % prop)
+            continue
         if len(main) != 1:
             chk.undecided(rule, g.qual, "%s is not a single aggregate" % prop, node=g.node)
             continue
@@ -466,9 +484,56 @@ def aggregation(chk, cls, active, released, roles):
             chk.bad(rule, cls.qual, "utilisation and allocation are not the same aggregate under the attribute swap", node=cls.node, stmt="sibling-symmetry")
 
 
+def demand_storage(chk, cls, active, released, roles):
+    """O15.6: a demand write is kept and is what the adjustment cycle reads back"""
+    prog = chk.program
+    rule = "O15.6"
+    g = prog.pick(cls.methods.get("demand", []), "getter")
+    st = prog.pick(cls.methods.get("demand", []), "setter")
+    if g is None or st is None:
+        chk.bad(rule, cls.qual, "FactoryPool does not define demand as a readable and writable property", node=cls.node, stmt="demand-property")
+        return
+    value = ("sym", st.params()[0])
+    stored = set()
+    ok = True
+    for o in Interp(prog, st, inline=helper_inline(cls, roles)).run():
+        chk.count()
+        if o.kind == "raise":
+            continue
+        w = [e[1] for e in o.path.events if e[0] == "store" and e[1][0] == "attr" and e[1][1] == SELF and e[2] == value]
+        if len(w) != 1:
+            chk.bad(rule, st.qual, "a demand write can complete without storing the written value (%d stores): the pool keeps adjusting to the old demand" % len(w), node=st.node, stmt="demand-not-stored")
+            ok = False
+        stored.update(w)
+    read = set()
+    for o in Interp(prog, g).run():
+        chk.count()
+        if o.kind == "return":
+            read.add(o.value)
+        elif o.kind != "raise":
+            read.add(None)
+    if ok and (len(stored) != 1 or read != stored):
+        chk.bad(rule, g.qual, "demand reads back %s but a write stores into %s: the adjustment cycle does not see the requested demand" % (sorted(show(r) if r else "None" for r in read), sorted(show(w) for w in stored)), node=g.node, stmt="demand-readback")
+        ok = False
+    init = prog.lookup_method(cls, "__init__")
+    if ok and stored:
+        attr = next(iter(stored))
+        for o in Interp(prog, init).run():
+            chk.count()
+            if o.kind in ("normal", "return") and not any(e[0] == "store" and e[1] == attr for e in o.path.events):
+                chk.bad(rule, init.qual, "the constructor does not initialise %s: reading the demand before the first write raises AttributeError and ends the pool's service" % show(attr), node=init.node, stmt="demand-not-initialised")
+                ok = False
+                break
+    if ok:
+        chk.ok(rule, cls.qual, "a demand write stores the value in %s, which the getter returns and the constructor initialises" % show(next(iter(stored))), node=st.node)
+
+
 def run(chk):
     res = chk.guard("O15.1", FACTORY, discover, chk)
     if not res:
         return
-    for rule, fn in (("O15.1", ownership), ("O15.2", release_atomic), ("O15.3", reap), ("O15.4", guards), ("O15.5", aggregation)):
+    from . import c09
+
+    chk.guard("O9.5", FACTORY, c09.factory_run, chk)
+    for rule, fn in (("O15.1", ownership), ("O15.2", release_atomic), ("O15.3", reap), ("O15.4", guards), ("O15.5", aggregation), ("O15.6", demand_storage)):
         chk.guard(rule, FACTORY, fn, chk, *res)
